@@ -313,14 +313,14 @@ fn run_builder_cmd(args: &[String]) -> i32 {
     let text = std::fs::read_to_string(&path).expect("behaviours");
     let behs: Vec<builder_run::Beh> = text.lines().filter(|l| !l.trim().is_empty())
         .map(|l| serde_json::from_str(l).expect("behaviour line")).collect();
-    let chunks: Vec<Vec<String>> = std::thread::scope(|sc| {
+    let chunks: Vec<(Vec<String>, Vec<Vec<u8>>)> = std::thread::scope(|sc| {
         let mut hs = vec![];
         for t in 0..THREADS {
             let behs = &behs;
             hs.push(sc.spawn(move || {
                 let mut r = conc::rng(seed, &format!("builder-{}", t));
                 let mut book = builder_run::NonceBook::default();
-                let mut lines = vec![];
+                let mut lines: Vec<String> = vec![];
                 for (i, beh) in behs.iter().enumerate().filter(|(i, _)| i % THREADS == t) {
                     let nbuild = beh.ops.iter().filter(|o| o.op == "build").count();
                     for pr in Proto::all() {
@@ -341,12 +341,25 @@ fn run_builder_cmd(args: &[String]) -> i32 {
                         lines.push(json!({"id": format!("{}:{}", i, pr.name()), "layer": beh.layer, "pr": pr.name(), "ops": ops}).to_string());
                     }
                 }
-                lines
+                (lines, book.seen.into_keys().collect::<Vec<Vec<u8>>>())
             }));
         }
-        hs.into_iter().map(|h| h.join().expect("thread")).collect()
+        hs.into_iter().map(|h| h.join().expect("thread")).collect::<Vec<_>>()
     });
-    let mut chunks = chunks;
+    // nonces drawn concurrently on different threads must be distinct as well (C10)
+    let mut all_nonces: std::collections::HashSet<Vec<u8>> = std::collections::HashSet::new();
+    let mut total_nonces = 0usize;
+    let mut chunks: Vec<Vec<String>> = chunks
+        .into_iter()
+        .map(|(l, n)| {
+            total_nonces += n.len();
+            all_nonces.extend(n);
+            l
+        })
+        .collect();
+    if total_nonces > 0 {
+        chunks.push(vec![json!({"id": "cross-thread", "layer": "xthread", "pr": "all", "total": total_nonces, "distinct": all_nonces.len(), "ops": []}).to_string()]);
+    }
     // random long histories (implementation -> specification direction)
     let n_random: usize = arg(args, "--random").and_then(|s| s.parse().ok()).unwrap_or(0);
     let maxlen: usize = arg(args, "--maxlen").and_then(|s| s.parse().ok()).unwrap_or(40);
